@@ -127,8 +127,12 @@ class Problem:
         return " ".join(parts)
 
     def update_line(self, rng, sparse, subset, reuse):
-        """mutate the blocks in `subset` (same pattern) and return the update line"""
+        """mutate the blocks in `subset` (same pattern) and return the update line.
+        Rows of G whose h is infinite are zeroed by PIQP when h is passed. Making such an h finite again without passing G
+        leaves the row zero (known finding F16b, owned by the C04 check): unless `self.allow_hrow` is set the generator keeps
+        a disabled row disabled when h is passed without G."""
         n, p, m = self.n, self.p, self.m
+        subset = list(subset)
         parts = ["sol.update", str(int(reuse))]
         if "P" in subset:
             newP = psd_matrix(rng, n)
@@ -156,9 +160,12 @@ class Problem:
             self.G = rnd_mat(rng, m, n, self.maskG)
             parts.append(self.mat_arg("G", self.G, self.maskG, m, n, sparse))
         if "h" in subset and m:
+            keep_inf = [i for i in range(m) if isinstance(self.h[i], str)] if ("G" not in subset and not getattr(self, "allow_hrow", False)) else []
             self.h = [sum(self.G[i][j] * self.x0[j] for j in range(n)) + F(rng.randint(1, 4), 2) for i in range(m)]
             if rng.random() < 0.15:
                 self.h[rng.randrange(m)] = rng.choice(["inf", "-inf"])
+            for i in keep_inf:
+                self.h[i] = "inf"
             parts.append(self.vec_arg("h", self.h))
         if "lb" in subset:
             self.has_lb = True
@@ -327,6 +334,11 @@ class Hist:
             self.L.append(check_line(self.prob.snapshot()))
         self.ops.append("solve")
         self.snaps.append(self.prob.snapshot())
+        return self
+
+    def precheck(self):
+        """evaluate the property predicates (incl. the preconditioner predicate of C15) on the current state"""
+        self.L.append(check_line(self.prob.snapshot()))
         return self
 
     def raw(self, line, op):
